@@ -257,7 +257,7 @@ func TestC04Sys(t *testing.T) {
 		}
 	}
 	// metadata blocks at size limits: one value such that len(key) + len(encoded value) + 32 is L-1, L, L+1 for
-	// L = 4 KiB, 8 KiB, 16 KiB (64 KiB once; thorough: 1 MiB), text and -bin, in the request, the response
+	// L = 4 KiB, 8 KiB, 16 KiB (thorough also 64 KiB once, text only), text and -bin, in the request, the response
 	// headers (all three ways they leave) and the trailers
 	sized := func(key string, total int) metadata.MD {
 		n := total - 32 - len(key)
@@ -275,11 +275,16 @@ func TestC04Sys(t *testing.T) {
 	// (the Coq side decodes every value: the quick tier keeps to 16 KiB and 16 KiB + 1, text and -bin; the other sizes are thorough's)
 	lims = append(lims, lim{16384, 0}, lim{16384, 1})
 	if thorough() {
+		// (64 KiB once, as text only; 1 MiB is not run: the cases file of the first thorough run with 64 KiB +-1 and 1 MiB
+		// values, text and -bin, was 41 MB and did not evaluate within its time)
 		lims = append(lims, lim{16384, -1}, lim{4096, -1}, lim{4096, 0}, lim{4096, 1}, lim{8192, -1}, lim{8192, 0}, lim{8192, 1},
-			lim{65536, -1}, lim{65536, 0}, lim{65536, 1}, lim{1 << 20, 0})
+			lim{65536, 0})
 	}
 	for li, lm := range lims {
 		for ki, key := range []string{"big", "big-bin"} {
+			if key == "big-bin" && lm.l > 16384 {
+				continue
+			}
 			if key == "big-bin" && !thorough() && !(lm.l == 16384 && lm.d == 1) {
 				continue // quick tier: one binary value, just above 16 KiB (decoding them in Coq is the cost: ~10 s and 500 MB each)
 			}
